@@ -61,8 +61,10 @@ def read_case(case: dict) -> dict:
   data = SB.build_file(case["gsi"], case["blocks"])
   raised = ""
   obs = EMPTY_OBS
+  from .core import AltContext, alt_for
   try:
-    doc = to_model(io.BytesIO(data), reader_config(case["cfg"], bool(case.get("via_json"))))
+    with AltContext(alt_for(("stl", case.get("id", 0)))) as ac:
+      doc = to_model(io.BytesIO(data), reader_config(case["cfg"], bool(case.get("via_json"))), ac.progress)
     obs = SP.project(doc)
   except Exception as ex:      # recorded, judged by the trace specification (clause reader_raised)
     raised = type(ex).__name__
@@ -262,7 +264,12 @@ def random_case(rng, cid, repeat_sn=False):
   tcp_n = rng.choice([0, 0, SB.label_to_count([10, 0, 0, 0], fps), SB.label_to_count([1, 0, 0, 0], fps),
                       SB.label_to_count([0, 59, 59, fps - 1], fps), rng.randint(0, day - 1)])
   mnr = 23 if tt else rng.choice([23, 11, 16, 30, 99])
+  unused_tcp = rng.random() < 0.12       # a TCP field that was never filled in: the programme starts at 00:00:00:00
+  if unused_tcp:
+    tcp_n = 0
   gsi = {"dfc": dfc, "dsc": dsc, "cct": cct, "tcp": SB.count_to_label(tcp_n, fps), "mnr": mnr}
+  if unused_tcp:
+    gsi["tcp_raw"] = rng.choice([" " * 8, " " * 8, "--------", "\x00" * 8, "TCP     "])
   start = rng.choice(["none", "none", "tcp", "tc"])
   tc_n = rng.choice([0, tcp_n, SB.label_to_count([10, 0, 0, 0], fps), SB.label_to_count([0, 1, 0, 0], fps),
                      SB.label_to_count([0, 0, 59, fps - 1], fps), rng.randint(0, day - 1)])
@@ -490,8 +497,10 @@ def gsi_edge_cases(cid0):
       else:
         gsi["mnr_raw"] = "  "
         cfg["rows"] = "mnr"
-      blocks = [{"sgn": 0, "sn": 1, "ebn": 0xFF, "cs": 0, "tci": [0, 0, 1, 0], "tco": [0, 0, 2, 0], "vp": 20, "jc": 2, "cf": 0,
-                 "tf": [0x41]}]
+      blocks = [{"sgn": 0, "sn": 1, "ebn": 0xFF, "cs": 0, "tci": [0, 0, 1, 7], "tco": [0, 0, 2, 11], "vp": 20, "jc": 2, "cf": 0,
+                 "tf": [0x41]},
+                {"sgn": 0, "sn": 2, "ebn": 0xFF, "cs": 0, "tci": [0, 0, 2, 14], "tco": [0, 1, 0, 3], "vp": 20, "jc": 2, "cf": 0,
+                 "tf": [0x42]}]
       cases.append({"id": cid, "family": "gsi_blank_" + what, "gsi": gsi, "cfg": cfg, "blocks": blocks, "via_json": False,
                     "flags": {"blank_field": what}})
   return cases
